@@ -254,6 +254,158 @@ theorem delivers_after_recovery (s : St) (t : TowerId) (h : Inv s.client) (sm : 
     unfold St.status Client.setStatus
     simp [hs1, hnm, Client.setSummary]
 
+/-- the core of a successful delivery: from a consistent client in which tower `t` is listed and not
+misbehaving, sending everything that is pending to a tower that accepts leaves a receipt for each,
+nothing pending for `t`, and `t` shown reachable -/
+theorem finish_delivery (c0 : Client) (hi0 : Inv c0) (t : TowerId) (sm0 : Summary)
+    (ht0 : c0.towers t = some sm0) (hmis : sm0.status ≠ .misbehaving) :
+    let c2 := (sendAll c0 t .accepted sm0.pending).1.setStatus t .reachable
+    (∀ l ∈ sm0.pending, (c2.store.rcpts t l).isSome = true) ∧
+    (∀ l, (t, l) ∉ c2.store.pending) ∧
+    (c2.towers t).map (·.status) = some .reachable := by
+  intro c2
+  obtain ⟨row, r, a1, a2, a3, a4, a5, a6, a7, a8, a9⟩ := hi0.sync_some t sm0 ht0
+  have hk0 : (c0.towers t).isSome = true := by simp [ht0]
+  obtain ⟨r1, r2, r3, r4, r5⟩ := sendAll_accepted t sm0.pending c0 hi0 hk0
+  show (∀ l ∈ sm0.pending, (((sendAll c0 t .accepted sm0.pending).1.setStatus t .reachable).store.rcpts t l).isSome = true) ∧
+    (∀ l, (t, l) ∉ ((sendAll c0 t .accepted sm0.pending).1.setStatus t .reachable).store.pending) ∧
+    (((sendAll c0 t .accepted sm0.pending).1.setStatus t .reachable).towers t).map (·.status) = some .reachable
+  simp only [setStatus_store]
+  refine ⟨fun l hl => (r3 l hl).1, ?_, ?_⟩
+  · intro l hmem
+    by_cases hin : l ∈ sm0.pending
+    · exact (r3 l hin).2 hmem
+    · have : (t, l) ∉ c0.store.pending := by
+        intro hm2
+        exact hin (by rw [a7]; exact (mem_locsOf _ _ _).mpr hm2)
+      exact r4 l this hmem
+  · have hk1 : ((sendAll c0 t .accepted sm0.pending).1.towers t).isSome = true :=
+      (keeps_sendAll t .accepted sm0.pending c0).known hi0 t hk0
+    obtain ⟨sm1, hs1⟩ := Option.isSome_iff_exists.mp hk1
+    have hnm : sm1.status ≠ .misbehaving := by
+      intro hm
+      obtain ⟨_, _, _, _, _, _, _, _, _, _, b9⟩ := r2.sync_some t sm1 hs1
+      have hp := b9.mp hm
+      have hnp : (c0.store.proofs t).isSome = false := by
+        cases hq : (c0.store.proofs t).isSome with
+        | false => rfl
+        | true => exact absurd (a9.mpr hq) hmis
+      have : ∀ (locs : List Loc) (c : Client), (sendAll c t .accepted locs).1.store.proofs = c.store.proofs := by
+        intro locs
+        induction locs with
+        | nil => intro c; rfl
+        | cons l ls ih =>
+          intro c
+          simp only [sendAll]
+          rw [ih, removePending_proofs, addReceipt_proofs]
+      rw [this, hnp] at hp
+      cases hp
+    unfold Client.setStatus
+    simp [hs1, hnm, Client.setSummary]
+
+/-- what re-registering with an extending receipt does to a listed tower: the subscription moves on,
+status, pending appointments and the proofs stay -/
+theorem reregistration_keeps_pending (c : Client) (h : Inv c) (t : TowerId) (sm : Summary)
+    (ht : c.towers t = some sm) :
+    let c1 := (c.addUpdateTower t t (nextReceipt c t)).1
+    Inv c1 ∧ ∃ sm1, c1.towers t = some sm1 ∧ sm1.pending = sm.pending ∧ sm1.status = sm.status := by
+  intro c1
+  refine ⟨h.addUpdateTower t t _, ?_⟩
+  obtain ⟨row, r0, a1, a2, a3, a4, a5, a6, a7, a8, a9⟩ := h.sync_some t sm ht
+  show ∃ sm1, (c.addUpdateTower t t (nextReceipt c t)).1.towers t = some sm1 ∧ _
+  have hnr : nextReceipt c t = { slots := sm.slots + 100, start := sm.start, expiry := sm.expiry + 10, sig := 0 } := by
+    unfold nextReceipt; simp [ht]
+  rw [hnr]
+  unfold Client.addUpdateTower
+  simp only [ht]
+  have hexp : ¬ (sm.expiry + 10 ≤ sm.expiry) := by omega
+  simp only [hexp, ↓reduceIte]
+  have hload : c.store.loadSummary t = some
+      { addr := row.addr, slots := row.slots, start := r0.start, expiry := r0.expiry,
+        status := reconStatus (c.store.proofs t).isSome (locsOf c.store.pending t),
+        pending := locsOf c.store.pending t, invalid := locsOf c.store.invalid t } := by
+    unfold Store.loadSummary; simp [a1, a2]
+  rw [hload]
+  simp only
+  have hsl : ¬ (sm.slots + 100 ≤ row.slots) := by omega
+  simp only [hsl, ↓reduceIte]
+  have hmax := maxReg_mem _ _ a2
+  have hany : (c.store.regs t).any (fun x => decide (x.expiry = sm.expiry + 10)) = false := by
+    rw [List.any_eq_false]
+    intro x hx
+    have := hmax.2 x hx
+    simp; omega
+  unfold Store.storeTowerRecord
+  simp only [hany, Bool.false_eq_true, ↓reduceIte, Client.setSummary]
+  exact ⟨_, rfl, rfl, rfl⟩
+
+/-- **delivery after a subscription error, once the subscription can be renewed**: the retrier
+registers again (the tower hands out an extending receipt), then delivers every pending
+appointment; the tower is shown reachable with nothing pending -/
+theorem delivers_after_renewal (s : St) (t : TowerId) (h : Inv s.client) (sm : Summary)
+    (ht : s.client.towers t = some sm) (hst : sm.status = .subscriptionError)
+    (hreg : (s.beh t).reg = .accept) (hb : classify (s.beh t) = .accepted)
+    (hsteady : (s.beh t).once = 0) (hne : sm.pending ≠ []) :
+    let s' := s.retry t (s.pendingOf t)
+    (∀ l ∈ sm.pending, (s'.client.store.rcpts t l).isSome = true) ∧
+    (∀ l, (t, l) ∉ s'.client.store.pending) ∧
+    s'.status t = some .reachable := by
+  intro s'
+  have hpo : s.pendingOf t = sm.pending := by unfold St.pendingOf; simp [ht]
+  have hdown : (s.beh t).down = false := by
+    cases hd : (s.beh t).down with
+    | false => rfl
+    | true => unfold classify at hb; simp [hd] at hb
+  obtain ⟨hi1, sm1, hs1, hp1, hst1⟩ := reregistration_keeps_pending s.client h t sm ht
+  -- the state after the re-registration
+  let s1 : St := (s.towerRegisters t).recordRegistration t
+  have htr : s.towerRegisters t = s := by unfold St.towerRegisters; rw [hreg]
+  have hc1 : s1.client = (s.client.addUpdateTower t t (nextReceipt s.client t)).1 := by
+    show ((s.towerRegisters t).recordRegistration t).client = _
+    rw [htr]; rfl
+  have hbeh1 : s1.beh = s.beh := by
+    show ((s.towerRegisters t).recordRegistration t).beh = _
+    rw [htr]; rfl
+  have hre : reRegister s t = (s1, none) := by
+    unfold reRegister St.status
+    simp only [ht, Option.map_some, hst, ↓reduceIte, hdown, Bool.false_eq_true, hreg]
+    have : regAccepted s t = true := by unfold regAccepted; rw [hreg]
+    simp [this, s1]
+  have hcons : ∀ x : St, x.beh = s.beh → x.consume t = x := by
+    intro x hx; unfold St.consume; rw [hx, hsteady]; simp
+  have hfin := finish_delivery s1.client (by rw [hc1]; exact hi1) t sm1 (by rw [hc1]; exact hs1)
+    (by rw [hst1, hst]; intro e; cases e)
+  obtain ⟨r1, _⟩ := sendAll_accepted t sm1.pending s1.client (by rw [hc1]; exact hi1)
+    (by rw [hc1]; simp [hs1])
+  have hone : runOnce s t sm.pending =
+      (s1.withClient (sendAll s1.client t .accepted sm.pending).1, .ok) := by
+    unfold runOnce
+    rw [hre]
+    simp only
+    have : classify (s1.beh t) = .accepted := by rw [hbeh1]; exact hb
+    rw [this]
+    show ((s1.withClient (sendAll s1.client t .accepted sm.pending).1).consume t,
+      (sendAll s1.client t .accepted sm.pending).2) = _
+    rw [← hp1, r1]
+    exact congrArg (·, RunResult.ok) (hcons _ hbeh1)
+  have hrun : s' = (s1.withClient ((sendAll s1.client t .accepted sm.pending).1.setStatus t .reachable)) := by
+    show s.retry t (s.pendingOf t) = _
+    unfold St.retry
+    rw [hpo]
+    have he : sm.pending.isEmpty = false := by
+      cases hp : sm.pending with
+      | nil => exact absurd hp hne
+      | cons _ _ => rfl
+    simp only [he, Bool.false_eq_true, ↓reduceIte, St.status, ht, Option.map_some, hst]
+    show (match runRetrier 4 s t sm.pending with
+      | (s1, r) => _) = _
+    rw [runRetrier_done 3 _ _ t sm.pending .ok hone (by intro e; cases e)]
+    rfl
+  rw [hrun]
+  simp only [St.withClient, St.status]
+  rw [← hp1]
+  exact hfin
+
 /-! ### failure: back off, give up, keep the data -/
 
 /-- **no progress, no loop**: when the tower cannot be reached or answers something unparsable,
